@@ -1,6 +1,342 @@
-/- Driver/C19 — stub until the property's model driver is written. -/
+/-
+Driver/C19 — runs the executable model of the install/download/size manifest builders, their
+serialisation, parser and queries on protocol lines; plus `read <hex>`, an INDEPENDENT reader of
+serialised manifest bytes (own walker over the format, bit extraction by `Spec.TagSets.readBits`,
+i.e. by division arithmetic, MSB first) that shares no code with the model's mask functions.
+-/
 import Driver.Common
-open Drv
+import Cascette.Model.Manifest
+import Cascette.Spec.TagSets
+open Cascette Drv
+open Cascette.Model.Manifest
+
+structure St where
+  mode : Nat := 0              -- 0 none, 1 install, 2 download, 3 size
+  ib : IBuilder := IBuilder.empty
+  db : Option DBuilder := none
+  stags : List Tag := []
+  sentries : Nat := 0
+  im : Option IManifest := none
+  dm : Option DManifest := none
+  bytes : Bytes := []
+
+def idxList (l : List Nat) : String :=
+  if l.isEmpty then "-" else ",".intercalate (l.map toString)
+
+def parseName (s : String) : Option Bytes := parseHex s
+
+def parseNames (s : String) : Option (List Bytes) :=
+  if s == "none" then some [] else (s.splitOn ",").mapM parseName
+
+def parseInt (s : String) : Option Int := s.toInt?
+
+def tagLine (n : Nat) (t : Tag) : String :=
+  hexOf t.name ++ ":" ++ toString t.typ ++ ":" ++ idxList ((List.range n).filter (hasFile t.mask))
+
+def maskLine (t : Tag) : String := hexOf t.name ++ ":" ++ toString t.typ ++ ":" ++ hexOf t.mask
+
+def joinOr (l : List String) : String := if l.isEmpty then "-" else " ".intercalate l
+
+/-! independent reader -/
+
+def takeCStr : Bytes → Option (Bytes × Bytes)
+  | [] => none
+  | b :: r => if b.toNat == 0 then some ([], r) else (takeCStr r).map fun (s, r') => (b :: s, r')
+
+def beNat (l : Bytes) : Nat := l.foldl (fun a b => 256 * a + b.toNat) 0
+
+partial def walkTags (n : Nat) : Nat → Bytes → Option (List String)
+  | 0, _ => some []
+  | c + 1, bs =>
+    match takeCStr bs with
+    | none => none
+    | some (name, r) =>
+      if r.length < 2 + (n + 7) / 8 then none else
+      let typ := beNat (r.take 2)
+      let mask := (r.drop 2).take ((n + 7) / 8)
+      match Spec.TagSets.readBits mask n with
+      | none => none
+      | some bits =>
+        let idx := (List.range n).filter fun i => bits[i]? == some true
+        match walkTags n c (r.drop (2 + (n + 7) / 8)) with
+        | none => none
+        | some rest => some ((hexOf name ++ ":" ++ toString typ ++ ":" ++ idxList idx) :: rest)
+
+partial def skipIEntries (extra : Nat) : Nat → Bytes → Option Bytes
+  | 0, bs => some bs
+  | c + 1, bs =>
+    match takeCStr bs with
+    | none => none
+    | some (_, r) => if r.length < 20 + extra then none else skipIEntries extra c (r.drop (20 + extra))
+
+def independentRead (bs : Bytes) : String :=
+  match bs with
+  | 0x49 :: 0x4E :: ver :: _ :: rest =>          -- "IN"
+    let tagCount := beNat (rest.take 2)
+    let n := beNat ((rest.drop 2).take 4)
+    let body := rest.drop (if ver.toNat ≥ 2 then 12 else 6)
+    match walkTags n tagCount body with
+    | some l => joinOr l
+    | none => "err"
+  | 0x44 :: 0x4C :: ver :: _ :: hc :: rest =>     -- "DL"
+    let n := beNat (rest.take 4)
+    let tagCount := beNat ((rest.drop 4).take 2)
+    let v := ver.toNat
+    let flagSize := if v ≥ 2 then ((rest.drop 6).take 1 |> beNat) else 0
+    let hdrRest := if v == 1 then 6 else if v == 2 then 7 else 11
+    let esz := 22 + (if hc.toNat != 0 then 4 else 0) + flagSize
+    match walkTags n tagCount (rest.drop (hdrRest + n * esz)) with
+    | some l => joinOr l
+    | none => "err"
+  | _ => "err"
+
+/-! protocol -/
+
+def exc {α : Type} (s : St) (r : Except Err α) (f : α → St) : St × String :=
+  match r with
+  | .ok a => (f a, "ok")
+  | .error e => (s, e.str)
+
+def idxOf {α : Type} (l : List (Nat × α)) : String := idxList (l.map (·.1))
+
+def handle (s : St) : List String → St × String
+  | ["begin", "install"] => ({ mode := 1 }, "ok")
+  | ["begin", "download", v] =>
+    match v.toNat? with
+    | some v =>
+      match DBuilder.new v with
+      | .ok b => ({ mode := 2, db := some b }, "ok")
+      | .error e => ({ mode := 2 }, e.str)
+    | none => (s, "bad-op")
+  | ["begin", "size"] => ({ mode := 3 }, "ok")
+  | ["cks", v] =>
+    match s.db, v.toNat? with
+    | some b, some v => ({ s with db := some (b.withChecksums (v != 0)) }, "ok")
+    | none, some _ => (s, "no-builder")
+    | _, _ => (s, "bad-op")
+  | ["flags", v] =>
+    match s.db, v.toNat? with
+    | some b, some v => exc s (b.withFlags v) fun b' => { s with db := some b' }
+    | none, some _ => (s, "no-builder")
+    | _, _ => (s, "bad-op")
+  | ["base", v] =>
+    match s.db, parseInt v with
+    | some b, some v => exc s (b.withBase v) fun b' => { s with db := some b' }
+    | none, some _ => (s, "no-builder")
+    | _, _ => (s, "bad-op")
+  | ["tag", name, typ] =>
+    match parseName name, typ.toNat? with
+    | some name, some typ =>
+      if s.mode == 1 then ({ s with ib := s.ib.addTag name typ }, "ok")
+      else if s.mode == 2 then
+        match s.db with
+        | some b => ({ s with db := some (b.addTag name typ) }, "ok")
+        | none => (s, "no-builder")
+      else if s.mode == 3 then ({ s with stags := s.stags ++ [⟨name, typ, []⟩] }, "ok")
+      else (s, "bad-op")
+    | _, _ => (s, "bad-op")
+  | ["file", path, key, size] =>
+    match parseHex path, parseHex key, size.toNat? with
+    | some p, some k, some sz =>
+      if s.mode == 1 then ({ s with ib := s.ib.addFile ⟨p, k, sz, none⟩ }, "ok") else (s, "bad-op")
+    | _, _, _ => (s, "bad-op")
+  | ["dfile", key, size, prio] =>
+    match s.db, parseHex key, size.toNat?, parseInt prio with
+    | some b, some k, some sz, some p => exc s (b.addFile k sz p) fun b' => { s with db := some b' }
+    | none, some _, some _, some _ => (s, "no-builder")
+    | _, _, _, _ => (s, "bad-op")
+  | ["setcks", i, c] =>
+    match s.db, i.toNat?, c.toNat? with
+    | some b, some i, some c => exc s (b.setChecksum i c) fun b' => { s with db := some b' }
+    | none, some _, some _ => (s, "no-builder")
+    | _, _, _ => (s, "bad-op")
+  | ["setflags", i, f] =>
+    match s.db, i.toNat?, parseHex f with
+    | some b, some i, some f => exc s (b.setFlags i f) fun b' => { s with db := some b' }
+    | none, some _, some _ => (s, "no-builder")
+    | _, _, _ => (s, "bad-op")
+  | ["assoc", i, name] =>
+    match i.toNat?, parseName name with
+    | some i, some name =>
+      if s.mode == 1 then exc s (s.ib.assoc i name) fun b' => { s with ib := b' }
+      else match s.db with
+        | some b => exc s (b.assoc i name) fun b' => { s with db := some b' }
+        | none => (s, "no-builder")
+    | _, _ => (s, "bad-op")
+  | ["associdx", i, ti] =>
+    match i.toNat?, ti.toNat? with
+    | some i, some ti =>
+      if s.mode == 1 then exc s (s.ib.assocIdx i ti) fun b' => { s with ib := b' } else (s, "bad-op")
+    | _, _ => (s, "bad-op")
+  | ["dissoc", i, name] =>
+    match i.toNat?, parseName name with
+    | some i, some name =>
+      if s.mode == 1 then exc s (s.ib.dissoc i name) fun b' => { s with ib := b' }
+      else match s.db with
+        | some b => exc s (b.dissoc i name) fun b' => { s with db := some b' }
+        | none => (s, "no-builder")
+    | _, _ => (s, "bad-op")
+  | ["rmfile", k] =>
+    match k.toNat? with
+    | some k =>
+      if s.mode == 1 then exc s (s.ib.removeFile k) fun b' => { s with ib := b' }
+      else match s.db with
+        | some b => let (b', r) := b.removeFile k; ({ s with db := some b' }, if r then "ok" else "no")
+        | none => (s, "no-builder")
+    | none => (s, "bad-op")
+  | ["rmtag", name] =>
+    match parseName name with
+    | some name =>
+      if s.mode == 1 then exc s (s.ib.removeTag name) fun b' => { s with ib := b' }
+      else match s.db with
+        | some b =>
+          match b.removeTag name with
+          | .ok (b', r) => ({ s with db := some b' }, if r then "ok" else "no")
+          | .error e => (s, e.str)
+        | none => (s, "no-builder")
+    | none => (s, "bad-op")
+  | ["masks"] =>
+    if s.mode == 1 then
+      match s.ib.build with
+      | .ok m => (s, toString m.entries.length ++ " " ++ joinOr (m.tags.map maskLine))
+      | .error e => (s, e.str)
+    else if s.mode == 2 then
+      match s.db with
+      | some b =>
+        match b.build with
+        | .ok m => (s, toString m.entries.length ++ " " ++ joinOr (m.tags.map maskLine))
+        | .error e => (s, e.str)
+      | none => (s, "no-builder")
+    else (s, "bad-op")
+  | "build" :: rest =>
+    if s.mode == 1 then
+      match s.ib.build with
+      | .error e => (s, e.str)
+      | .ok m0 =>
+        let m : Option IManifest :=
+          match rest with
+          | [] => some m0
+          | ["v2", cks, ec2, ft] =>
+            match cks.toNat?, ec2.toNat?, ft.toNat? with
+            | some c, some e, some f =>
+              some { m0 with version := 2, v2 := some (c, e, 0),
+                             entries := m0.entries.map fun en => { en with ftype := some f } }
+            | _, _, _ => none
+          | _ => none
+        match m with
+        | none => (s, "bad-op")
+        | some m =>
+          let bytes := serInstall m
+          ({ s with bytes := bytes, im := parseInstall bytes, dm := none }, hexOf bytes)
+    else if s.mode == 2 then
+      match s.db with
+      | none => (s, "no-builder")
+      | some b =>
+        match b.build with
+        | .error e => (s, e.str)
+        | .ok m =>
+          let bytes := serDownload m
+          ({ s with bytes := bytes, dm := parseDownload bytes, im := none }, hexOf bytes)
+    else (s, "bad-op")
+  | ["reparse"] =>
+    if s.mode == 1 then
+      match s.im with
+      | some m =>
+        (s, "ok tags=" ++ toString m.tags.length ++ " entries=" ++ toString m.entries.length ++
+            " same=" ++ (if serInstall m == s.bytes then "1" else "0"))
+      | none => (s, "err")
+    else if s.mode == 2 then
+      match s.dm with
+      | some m =>
+        (s, "ok tags=" ++ toString m.tags.length ++ " entries=" ++ toString m.entries.length ++
+            " same=" ++ (if serDownload m == s.bytes then "1" else "0"))
+      | none => (s, "err")
+    else (s, "bad-op")
+  | ["trunc", n] =>
+    match n.toNat? with
+    | some n =>
+      if s.mode == 1 then (s, if (parseInstall (s.bytes.take n)).isSome then "ok" else "err")
+      else if s.mode == 2 then (s, if (parseDownload (s.bytes.take n)).isSome then "ok" else "err")
+      else (s, "bad-op")
+    | none => (s, "bad-op")
+  | ["read", h] =>
+    match parseHex h with
+    | some bs => (s, independentRead bs)
+    | none => (s, "bad-op")
+  | ["q", "tags"] =>
+    match s.im, s.dm with
+    | some m, _ => (s, joinOr (m.tags.map (tagLine m.entries.length)))
+    | none, some m => (s, joinOr (m.tags.map (tagLine m.entries.length)))
+    | none, none => (s, "no-manifest")
+  | ["q", "tag", name] =>
+    match parseName name, s.im, s.dm with
+    | some nm, some m, _ => (s, idxOf (m.filesForTag nm))
+    | some nm, none, some m => (s, idxOf (m.byTag nm))
+    | some _, none, none => (s, "no-manifest")
+    | none, _, _ => (s, "bad-op")
+  | ["q", "all", names] =>
+    match parseNames names, s.im, s.dm with
+    | some ns, some m, _ => (s, idxOf (m.allOf ns))
+    | some ns, none, some m => (s, idxOf (m.byTags ns))
+    | some _, none, none => (s, "no-manifest")
+    | none, _, _ => (s, "bad-op")
+  | ["q", "any", names] =>
+    match parseNames names, s.im with
+    | some ns, some m => (s, idxOf (m.anyOf ns))
+    | some _, none => (s, "no-manifest")
+    | none, _ => (s, "bad-op")
+  | ["q", "size", names] =>
+    match parseNames names, s.im, s.dm with
+    | some ns, some m, _ => (s, toString (m.installSize ns))
+    | some ns, none, some m => (s, toString (m.sizeForTags ns))
+    | some _, none, none => (s, "no-manifest")
+    | none, _, _ => (s, "bad-op")
+  | ["q", "total"] =>
+    match s.im, s.dm with
+    | some m, _ => (s, toString m.totalSize)
+    | none, some m => (s, toString m.totalSize)
+    | none, none => (s, "no-manifest")
+  | ["q", "prio", cat] =>
+    match cat.toNat?, s.dm with
+    | some c, some m => (s, idxOf (m.byPriority c))
+    | some _, none => (s, "no-manifest")
+    | none, _ => (s, "bad-op")
+  | ["q", "prange", lo, hi] =>
+    match parseInt lo, parseInt hi, s.dm with
+    | some lo, some hi, some m => (s, idxOf (m.byPriorityRange lo hi))
+    | some _, some _, none => (s, "no-manifest")
+    | _, _, _ => (s, "bad-op")
+  | ["q", "ess"] =>
+    match s.dm with
+    | some m => (s, toString m.essentialSize)
+    | none => (s, "no-manifest")
+  | ["q", "inter", a, b] =>
+    match parseName a, parseName b, s.im with
+    | some a, some b, some m =>
+      match findTag m.tags a, findTag m.tags b with
+      | some ta, some tb => (s, hexOf (intersect ta.mask tb.mask))
+      | _, _ => (s, "no-tag")
+    | some _, some _, none => (s, "no-manifest")
+    | _, _, _ => (s, "bad-op")
+  | ["q", "union", a, b] =>
+    match parseName a, parseName b, s.im with
+    | some a, some b, some m =>
+      match findTag m.tags a, findTag m.tags b with
+      | some ta, some tb => (s, hexOf (union ta.mask tb.mask))
+      | _, _ => (s, "no-tag")
+    | some _, some _, none => (s, "no-manifest")
+    | _, _, _ => (s, "bad-op")
+  | ["stagfile", ti, fi] =>
+    match ti.toNat?, fi.toNat? with
+    | some ti, some fi =>
+      if s.mode == 3 then exc s (sizeTagFile s.stags ti fi) fun ts => { s with stags := ts } else (s, "bad-op")
+    | _, _ => (s, "bad-op")
+  | ["sentry"] => if s.mode == 3 then ({ s with sentries := s.sentries + 1 }, "ok") else (s, "bad-op")
+  | ["sbuild"] =>
+    if s.mode == 3 then
+      (s, toString s.sentries ++ " " ++ joinOr ((sizeBuildTags s.stags s.sentries).map maskLine))
+    else (s, "bad-op")
+  | _ => (s, "bad-op")
 
 def main : IO Unit := do
-  loopPure (← IO.getStdin) (← IO.getStdout) (fun _ => "bad-op")
+  loopState (← IO.getStdin) (← IO.getStdout) handle ({} : St)
